@@ -76,6 +76,10 @@ def eval_prop(pf, note) -> "bool | None":
     if vt == "DATE":
         want = _iso(pf.value)
         got = _iso(stored)
+        if want is not None and got is None and stored[:1].isalpha() and stored.lower() != "now":
+            # a word is not a date: it cannot satisfy a date comparison (the negated form,
+            # "exists and not cmp", is left unjudged for such values)
+            return None if pf.negated else False
         if want is None or got is None:
             return None
         r = _cmp(op, got, want)
